@@ -18,9 +18,11 @@ EXPLANATION = (
     'state/(2^31-1) - 0.5 lies in [-0.5, 0.5] (both components of complex draws). '
     'Further: every draw made by a member of the generator class advances the object\'s own state (the state argument is the field, '
     'or a local stored back on every path); no call, constructor or arithmetic operator in the generator code has two operands '
-    'of which one modifies an object the other modifies or reads (unspecified evaluation order). Does NOT decide that the split '
-    'multiplication equals 16807*s mod (2^31-1) for all 2^31-2 states, nor non-degeneracy of the state (never 0 or 2^31-1): '
-    'those are number-theoretic facts that need enumeration or a bit-vector solver, a different technique.')
+    'of which one modifies an object the other modifies or reads (unspecified evaluation order). Congruence abstract interpretation of the step function (exact integer linear forms over the bit-field halves the body '
+    'creates; split equations; linear algebra over GF(2^31-1)) shows that on every path next = 16807 * state modulo 2^31-1; with '
+    'the interval result, 2^31-1 prime and 16807 coprime to it, the next state is exactly (16807 s) mod (2^31-1) and stays in '
+    '[1, 2^31-2]: the Park-Miller sequence for all states, never degenerate; every library seed (loop counters up to 2^20) is a '
+    'proper state. Does NOT decide statistical quality, nor seeds beyond that bound.')
 ASSUMPTIONS = ['LLVM IR produced by clang 14 for the drivers represents the generator faithfully (same source, -O0)',
                'std::complex constructor only stores its two arguments']
 
@@ -268,10 +270,69 @@ def draws_advance_object(ctx, rule='draw-advances-the-generator-object'):
         raise AnalysisBroken('only %d drawing members of SimpleRandom analysed' % n)
 
 
+def step_is_park_miller(ctx, rule='step-congruent-to-park-miller'):
+    """Congruence abstract interpretation of the step function (rules/congruence.py): on every path the returned value is
+    = 16807 * state modulo 2^31 - 1, as an identity of the body's own integer arithmetic (bit-field splits x = 2^k hi + lo,
+    carry-removing masks), decided by linear algebra over GF(2^31 - 1).  Together with the interval result (value in
+    [0, 2^31 - 1]), 2^31 - 1 prime and 16807 not a multiple of it: for every state s in [1, 2^31 - 2] the next state is
+    EXACTLY (16807 s) mod (2^31 - 1), which lies in [1, 2^31 - 2] again -- the Park-Miller sequence, never degenerate.  The
+    multiplier and the modulus are those the property names (the oracle), not constants read from the code."""
+    from . import congruence, interval
+    A, M = 16807, 2 ** 31 - 1
+    fns = ctx.F.insts('Spectra::next_long_rand')
+    if not fns:
+        raise AnalysisBroken('step function next_long_rand not found')
+    arith = congruence.is_prime(M) and A % M != 0
+    for fn in fns:
+        res, neq = congruence.step_congruent(fn, (0, M), A, M)
+        for i, (ok, where, detail, iv) in enumerate(res):
+            ctx.check(ok, rule, 'next_long_rand@return-path-%d' % i, where,
+                      ('next = 16807 * state (mod 2^31-1) on this path (%d split equations; %s)' % (neq, detail)) if ok else
+                      'the step is not the Park-Miller step on this path: ' + detail)
+        (lo, hi), npaths = interval.result_range(fn, [(0, M)])
+        nondeg = arith and lo >= 0 and hi <= M and all(r[0] for r in res)
+        ctx.check(nondeg, 'state-never-degenerate', 'next_long_rand', fn.qname,
+                  'value in [0, 2^31-1] and = 16807*s mod the prime 2^31-1: for s in [1, 2^31-2] the next state is exactly (16807 s) mod (2^31-1), in [1, 2^31-2]' if nondeg else
+                  'cannot conclude that states stay in [1, 2^31-2]: range [%d, %d], congruence on all paths: %s' % (lo, hi, all(r[0] for r in res)))
+
+
+def seed_range(ctx, rule='library-seeds-are-proper-states'):
+    """Every seed expression at a generator construction site, with its loop counters in [0, 2^20] (the bound the property
+    names), evaluates into [0, 2^31 - 2]; the constructor maps 0 to 1 and keeps the rest: the first state is in [1, 2^31 - 2]."""
+    from . import interval
+    M = 2 ** 31 - 1
+    n = 0
+    for fn in ctx.F.concrete():
+        for x in fn.walk():
+            if x['k'] in ('CXXConstructExpr', 'CXXTemporaryObjectExpr') and x.get('ctor_of') == 'Spectra::SimpleRandom' and not x.get('copy') and not x.get('move'):
+                args = fn.call_args(x)
+                if len(args) != 1:
+                    continue
+                env = {}
+                for y in fn.walk(args[0]):
+                    if y['k'] == 'DeclRefExpr' and 'var' in y and 'cval' not in y:
+                        env[y['var']] = (0, 2 ** 20)
+                try:
+                    lo, hi = interval.ev(fn, args[0], env)
+                except interval.Unsupported as e:
+                    ctx.fail(rule, '%s::%s' % (fn.cls.replace('Spectra::', ''), fn.name), fn.loc(x), 'seed %s outside the interval domain: %s' % (fn.s(args[0]), e))
+                    n += 1
+                    continue
+                n += 1
+                ok = lo >= 0 and hi <= M - 1
+                ctx.check(ok, rule, '%s::%s' % (fn.cls.replace('Spectra::', ''), fn.name), fn.qname,
+                          'seed %s in [%d, %d] for counters up to 2^20: a proper state after normalisation' % (fn.s(args[0]), lo, hi) if ok else
+                          'seed %s may reach [%d, %d]: outside [0, 2^31-2] (the degenerate states 0 and 2^31-1 become reachable)' % (fn.s(args[0]), lo, hi))
+    if n < 4:
+        raise AnalysisBroken('only %d generator construction sites analysed' % n)
+
+
 def run(ctx):
     ir_effects(ctx)
     draws_advance_object(ctx)
     state_range(ctx)
+    step_is_park_miller(ctx)
+    seed_range(ctx)
     seed_normalisation(ctx)
     seed_provenance(ctx)
     hygiene.rng_objects_are_locals(ctx)
@@ -280,3 +341,6 @@ def run(ctx):
     hygiene.unsequenced_side_effects(ctx, scope=lambda fn: fn.qname.startswith(('Spectra::RandomScalar<', 'Spectra::SimpleRandom<', 'Spectra::next_long_rand')), min_instances=6)
     ctx.require('generator-effects', 13)
     ctx.require('seed-provenance', 4)
+    ctx.require('step-congruent-to-park-miller', 1)
+    ctx.require('state-never-degenerate', 1)
+    ctx.require('library-seeds-are-proper-states', 4)
